@@ -222,6 +222,7 @@ func visitInstr(fr *frame, instr ssa.Instruction) continuation {
 		fr.env[instr] = r.binop(instr.Op, instr.X.Type(), fr.get(instr.X), fr.get(instr.Y))
 
 	case *ssa.Call:
+		r.evalOrder(fr, instr)
 		fn, args := prepareCall(fr, &instr.Call)
 		fr.env[instr] = call(fr.i, fr, instr.Pos(), fn, args)
 
